@@ -3,7 +3,7 @@ CONSTANTS
   Calls = {"info", "lte", "solve", "deton", "matching"}
   BadInputs = {"same", "order"}
   NR = 1
-  D = 6
+  D = 7
 CONSTRAINT Bound
 INVARIANT Emit
 CHECK_DEADLOCK FALSE
